@@ -5,6 +5,7 @@ parser by the harness on every run.
 -/
 import VaxisModel.Model.ParserIO
 import VaxisModel.Spec.VT500
+import VaxisModel.Props.C02Text
 
 namespace VaxisModel.Witness.F102
 open VaxisModel.Model.Parser VaxisModel.Model.ParserIO
@@ -30,5 +31,29 @@ theorem F102d_invalid_after_prepend :
     runChunks handTable (fun p => if p = 0 then 2 else 1) [[0xD8, 0x80, 0xFF]] =
       [.print [0x600, 0xFFFD], .seq .eof] ∧
     Spec.VT500.decode [0xD8, 0x80, 0xFF] = [0x600, 0xFF] := by decide
+
+
+open VaxisModel.Model.ParserUtf8 VaxisModel.Props.C02Text in
+/-- F102d at the level of the round-2 statements: without the hypothesis on the oracle, text is
+    **not** conserved — `D8 80 FF` in one read with an oracle that joins the rune after U+0600 to it
+    delivers U+FFFD where the stream has the raw byte FF. -/
+theorem F102d_text_altered : ¬ text_conserved_full := by
+  intro h
+  have := h (fun p => if p = 0 then 2 else 1) [[0xD8, 0x80, 0xFF]] (by decide)
+  revert this
+  decide
+
+open VaxisModel.Model.ParserUtf8 VaxisModel.Props.C02Text in
+/-- … and the result **does** depend on the split: the same bytes as `D8 80 | FF` deliver the raw byte. -/
+theorem F102d_split_dependent : ¬ chunk_independent_full := by
+  intro h
+  have := h (fun p => if p = 0 then 2 else 1) [[0xD8, 0x80, 0xFF]] [[0xD8, 0x80], [0xFF]] (by decide)
+  revert this
+  decide
+
+/-- That oracle is exactly what the hypothesis of the `…_partial` theorems excludes. -/
+theorem F102d_oracle_not_respectful :
+    ¬ VaxisModel.Model.ParserUtf8.Respects (fun p => if p = 0 then 2 else 1) 0
+        (VaxisModel.Model.ParserUtf8.units [0xD8, 0x80, 0xFF]) := by decide
 
 end VaxisModel.Witness.F102
